@@ -20,6 +20,9 @@ namespace Hyp.Text
 open Hyp Hyp.QP Hyp.SetOps Hyp.SetSpec Hyp.Text.Spec
 open Hyp.Lex (Cfg)
 
+-- for any BM25 parameters (`Score.Bm25`); which documents are returned does not depend on them
+variable [Score.Bm25 ℝ]
+
 /-- the scored result exists and has exactly these keys -/
 def KeyRel (r1 : Score.Res ℝ) (r2 : List Int) : Prop :=
   ∃ m, r1 = .ok m ∧ ∀ d, d ∈ AMap.keys m ↔ d ∈ r2
